@@ -120,3 +120,41 @@ func VH_packet_wrong_aad_rejected() {
 	vAssert(err != nil && got == nil, "a packet sealed under other associated data is rejected")
 	vReach("end")
 }
+
+// C19(3'): the 3-byte length field: for content lengths on both sides of every byte boundary of the field
+// (0, 255, 256, 65535, 65536, 65537; thorough adds 1, 257 and 2^18; larger packets are outside the bound) the enciphered length prefix deciphers to the
+// little-endian content length and the receiver returns exactly the contents.
+//verif:opts reach=end max_steps=60000000 t_max_steps=2000000000
+func VH_packet_length_field() {
+	lens := []int{0, 255, 256, 65535, 65536, 65537}
+	if vTier() == 1 {
+		lens = []int{0, 1, 255, 256, 257, 65535, 65536, 65537, 1 << 18}
+	}
+	L := lens[vNondetLen("contentLen", len(lens)-1)]
+	pipe := &vPipe{}
+	keyL := make([]byte, 32)
+	keyP := make([]byte, 32)
+	for i := range keyL {
+		keyL[i], keyP[i] = byte(3*i+1), byte(0x55+i)
+	}
+	sl, _ := NewFSChaCha20(keyL)
+	rl, _ := NewFSChaCha20(keyL)
+	ref, _ := NewFSChaCha20(keyL)
+	snd := &Peer{sendL: sl, sendP: &FSChaCha20Poly1305{key: keyP, cipher: &vAEAD2{key: keyP}}, rw: pipe}
+	rcv := &Peer{recvL: rl, recvP: &FSChaCha20Poly1305{key: keyP, cipher: &vAEAD2{key: keyP}}, rw: pipe}
+	contents := make([]byte, L)
+	if L > 0 {
+		contents[0], contents[L-1] = 0xa1, 0xb2
+	}
+	_, n, err := snd.V2EncPacket(contents, nil, false)
+	vAssert(err == nil && n == 3+1+L+16 && len(pipe.buf) == n, "packet size == 3 + 1 + contents + 16")
+	lenField, err := ref.Crypt(pipe.buf[:3])
+	vAssert(err == nil && int(lenField[0])|int(lenField[1])<<8|int(lenField[2])<<16 == L, "the length prefix deciphers to the little-endian content length")
+	got, err := rcv.V2ReceivePacket(nil)
+	vAssert(err == nil && len(got) == L, "the receiver returns contents of the sent length")
+	if L > 0 {
+		vAssert(got[0] == 0xa1 && got[L-1] == 0xb2, "contents delivered unchanged")
+	}
+	vAssert(pipe.pos == len(pipe.buf), "the receiver consumed exactly the packet")
+	vReach("end")
+}
